@@ -271,6 +271,13 @@ impl Report {
             println!("KNOWN-FINDING: property={} case={} {} [{} occurrence(s) this run]", self.id, case_id, text, count);
         }
         let nviol: u64 = viol.values().map(|v| v.2).sum();
+        let div = crate::env::DIVERGENCES.load(Ordering::Relaxed);
+        if div > 0 {
+            println!("  NOTE: {} execution(s) did not repeat their call sequence under identical environment answers (the subject keeps state between calls)", div);
+            if nviol == 0 && known.is_empty() {
+                machinery("replay divergence without any oracle violation: nondeterminism the harness does not own");
+            }
+        }
 
         let mut cov = Map::new();
         let evals = self.evaluations.load(Ordering::Relaxed);
